@@ -695,6 +695,83 @@ func C17(c *core.Ctx) {
 		})
 	}
 	c.Extra["decoded_val_field_reads"] = nVal
+
+	// ---- R17.6 every dereference of an optional element of a decoded message in the
+	// management package (handlers with or without a mutation, dataset queries, the thread's
+	// own dispatch) is behind its presence test — also when presence is coupled to another
+	// element (Flags/Mask both-or-neither, through the validity-flag idiom)
+	reportOptionalDerefs(c, "R17.6", []string{"fw/mgmt"}, nil, 60, "a command omitting the element crashes the management thread (nil pointer dereference)")
+
+	// ---- R17.5 what the management thread's transport dereferences unconditionally on
+	// every frame it receives (InternalTransport.Receive: LpPacket, IncomingFaceId) is
+	// supplied by the producing side: the internal face is created with incoming-face
+	// indication enabled; every OutPkt built by the forwarder names a non-nil incoming face;
+	// face options of an internal face cannot be changed through management
+	if reg := c.Fn("R17.5", "fw/face", "", "RegisterInternalTransport"); reg != nil {
+		on := false
+		core.Instrs(reg, func(in ssa.Instruction) {
+			if _, v, ok := storeToField(in, "NDNLPLinkServiceOptions", "IsIncomingFaceIndicationEnabled"); ok {
+				if b, isC := core.ConstBool(v); isC && b {
+					on = true
+				}
+			}
+		})
+		c.Decide(on, "R17.5", "internal-face-indication-enabled", p.Pos(reg.Pos()), "the internal face is created with IsIncomingFaceIndicationEnabled = true", "RegisterInternalTransport no longer enables incoming-face indication, but InternalTransport.Receive dereferences IncomingFaceId of every frame: the first command crashes the management thread")
+	}
+	{
+		nLit, bad := 0, ""
+		for _, fn := range p.FuncsIn(core.ModPath + "/fw/fw") {
+			if ps := fn.Pos(); ps.IsValid() && strings.HasSuffix(p.Fset.Position(ps).Filename, "_test.go") {
+				continue
+			}
+			core.Instrs(fn, func(in ssa.Instruction) {
+				al, ok := in.(*ssa.Alloc)
+				if !ok || core.TypePkgPath(al.Type()) != core.ModPath+"/fw/dispatch" {
+					return
+				}
+				if nt, ok := core.Deref(al.Type()).(*types.Named); !ok || nt.Obj().Name() != "OutPkt" {
+					return
+				}
+				nLit++
+				c.Funcs[core.FuncName(fn)] = true
+				okLit := false
+				for _, r := range core.Refs(al) {
+					fa, isFA := r.(*ssa.FieldAddr)
+					if !isFA {
+						continue
+					}
+					if _, f := core.FieldAddrName(fa); f != "InFace" {
+						continue
+					}
+					for _, r2 := range core.Refs(fa) {
+						st, isSt := r2.(*ssa.Store)
+						if !isSt || st.Addr != ssa.Value(fa) {
+							continue
+						}
+						v := core.Strip(st.Val)
+						if cl, isCall := v.(*ssa.Call); isCall {
+							if id, okID := core.Callee(&cl.Call); okID && id.Name == "IdPtr" {
+								okLit = true
+							}
+						}
+						if _, isAl := v.(*ssa.Alloc); isAl {
+							okLit = true
+						}
+						if u, isLoad := v.(*ssa.UnOp); isLoad && u.Op == token.MUL {
+							g := core.GateDeep(fn, []ssa.Instruction{st}, pos(atomNonNil("InFace source != nil", u)))
+							if g.OK && g.PassEdges > 0 {
+								okLit = true
+							}
+						}
+					}
+				}
+				if !okLit {
+					bad = core.FuncName(fn) + " at " + c.Pos(in)
+				}
+			})
+		}
+		c.Decide(bad == "" && nLit >= 3, "R17.5", "every-outpkt-names-incoming-face", "-", fmt.Sprintf("%d OutPkt constructions, each with a non-nil InFace (IdPtr, address of a local, or a nil-checked field)", nLit), "an OutPkt is built without a (provably non-nil) incoming face ("+bad+"): when it is sent to the management thread's internal face the frame carries no IncomingFaceId and InternalTransport.Receive dereferences nil")
+	}
 }
 
 // isDerefOfField: v is *(X.field) for some X.
